@@ -13,7 +13,7 @@ def _nontrivial(script, r):
 
 def run(ctx, deep=False):
     thorough = deep or ctx.tier == "thorough"
-    n = 6000 if thorough else 500
+    n = 20000 if thorough else 2000
     ctx.coverage["rule"] = (
         "fault scripts of depth 1..6 over {refuse, accept with latency, peer EOF, peer reset, garbage, bad CRC, truncated frame, "
         "write error on the next write, blocked drain, unencodable message (struct.error / NotImplementedError / AttributeError), "
